@@ -214,6 +214,7 @@ func C20(c *Ctx) {
 	}
 	// ---- m: the hand-written scanner validates numeric escapes by their value
 	bootstrapEscapeRadix(c, "C20-m")
+	literalDecodingAgreement(c, "C20-n")
 	// ---- l: the Makefile's own fixpoint comparison
 	c20CmpRecipe(c, repo)
 	// ---- e: sibling agreement on literal decoding
